@@ -29,6 +29,7 @@ def jobs(tier, seed):
         out.append(('configure.cfg=%d' % cfg, 'c_configure', dict(cfg=cfg)))
     for li in range(0, 19):
         out.append(('layout.%d' % li, 'c_layout', dict(li=li)))
+        out.append(('frame-loss.%d' % li, 'c_subst', dict(li=li)))
     return out
 
 
@@ -243,6 +244,67 @@ def c_lookup_seq(hid, cfg, timeout_ms=60000):
     return j.stats
 
 
+SUBST_F = ['sizeof(struct l1sched_lchan_state)', 'offsetof(struct l1sched_lchan_state, type)', 'offsetof(struct l1sched_lchan_state, ts)', 'offsetof(struct l1sched_lchan_state, tdma.num_proc)',
+           'offsetof(struct l1sched_lchan_state, tdma.last_proc)', 'offsetof(struct l1sched_lchan_state, tdma.num_lost)', 'sizeof(struct l1sched_ts)', 'offsetof(struct l1sched_ts, mf_layout)',
+           'offsetof(struct l1sched_ts, index)', 'offsetof(struct l1sched_burst_ind, fn)', 'offsetof(struct l1sched_burst_ind, bid)', 'sizeof(((struct l1sched_lchan_state *)0)->tdma.num_proc)',
+           'sizeof(((struct l1sched_lchan_state *)0)->type)', 'offsetof(struct l1sched_ts, sched)', 'sizeof(struct l1sched_state)']
+
+
+def c_subst(hid, li, timeout_ms=60000):
+    """frame lookups of the burst-loss substitution (sched_trx.c: subst_frame_loss) stay inside the layout table: last processed frame
+    symbolic over the hyperframe, 0..5 frames lost after it, channel symbolic; every substituted burst carries the burst id the layout
+    gives to that frame of that channel"""
+    j = cjob.CJob(hid, timeout_ms)
+    fw, tx = consts()
+    so = cjob.offsets('#include <stdint.h>\n#include <stdbool.h>\n#include <osmocom/bb/l1sched/l1sched.h>\n', SUBST_F, TX_INCS, extra_cflags=trxc.EXTRA)
+    lsz, o_type, o_ts, o_np, o_lp, o_nl, tsz, o_mf, o_idx, o_bfn, o_bbid, npsz, tysz, o_sched, ssz = (so[k] for k in SUBST_F)
+    M = cfg_module()
+    ex = Exec(M, max_iter=128); ex.prune_branches = True
+    lay = Layouts(ex)
+    if li >= lay.n:
+        x = j.var(ex, 'dummy', 0, 1); j.witness(ex, []); return j.stats
+    period, nfr, cols = lay.table(li)
+    if cols is None or not period:
+        x = j.var(ex, 'dummy', 0, 1); j.witness(ex, []); return j.stats
+    last = j.var(ex, 'last_proc', 0, HYPER - 1)
+    gap = j.var(ex, 'gap', 1, 6)                       # up to 5 consecutive lost frames (the loop body is uniform; its trip count is gap - 1)
+    fn = V((last.e + gap.e) % HYPER, 0, HYPER - 1)
+    chans = sorted(set(cols['dl_chan']))
+    ch = j.var(ex, 'chan', min(chans), max(chans))
+    nop = lambda e, st, a: C(0)
+    for d in M.decls:
+        if d not in ex.stubs and not d.startswith('@llvm.'): ex.stubs[d] = nop
+    calls = []
+    def handler(e, st, a):
+        bi = a[1]
+        cells = e.cells(st, bi.obj)
+        calls.append((st.guard, e._read_at(cells, bi.obj, bi.off.conc() + o_bfn, 4, False), e._read_at(cells, bi.obj, bi.off.conc() + o_bbid, 1, False)))
+        return C(0)
+    ex.stubs['@vf_rx_handler'] = handler
+    ex.zeroed = set()
+    orig = ex._uninit
+    def uninit(obj, off, n, isptr, orig=orig, ex=ex):
+        if obj in ex.zeroed: return NULL if isptr else C(0)
+        return orig(obj, off, n, isptr)
+    ex._uninit = uninit
+    lch = ex.new_obj(lsz, 'lchan'); ts = ex.new_obj(tsz, 'ts'); sched = ex.new_obj(ssz, 'sched'); ex.zeroed.update((lch, ts, sched))          # all other fields zero
+    ex.objs.setdefault('g:@l1sched_lchan_desc', 64 * 64); ex.zeroed.add('g:@l1sched_lchan_desc'); ex.ginit['g:@l1sched_lchan_desc'] = {}
+    lc = {o_type: (tysz, ch), o_ts: (8, Ptr(ts, C(0))), o_np: (npsz, C(1)), o_lp: (4, last)}
+    tc = {o_mf: (8, Ptr('g:@layouts', C(li * lay.sz))), o_idx: (1, C(2)), o_sched: (8, Ptr(sched, C(0)))}
+    out = ex.run('@subst_frame_loss', [Ptr(lch, C(0)), FnPtr('@vf_rx_handler'), fn], {lch: lc, ts: tc})
+    j.witness(ex, [])
+    j.stats.extra['ir_steps'] = ex.steps
+    j.memory_obligations(ex, [])
+    if j.stats.failures: return j.stats
+    for k, (g, bfn, bid) in enumerate(calls[:period + 2]):
+        gg = g if g is not True else z3.BoolVal(True)
+        idx = bfn.e % period
+        j.must_hold(ex, 'substituted[%d]:frame-belongs-to-channel' % k, [], z3.Implies(gg, uf(ex, cols['dl_chan'], idx) == ch.e))
+        j.must_hold(ex, 'substituted[%d]:burst-id-of-that-frame' % k, [], z3.Implies(gg, uf(ex, cols['dl_bid'], idx) == bid.e))
+        j.must_hold(ex, 'substituted[%d]:strictly-between-last-and-current' % k, [], z3.Implies(gg, z3.And((bfn.e - last.e) % HYPER >= 1, (bfn.e - last.e) % HYPER < (fn.e - last.e) % HYPER)))
+    return j.stats
+
+
 def c_layout(hid, li, timeout_ms=60000):
     """internal consistency of one trxcon layout for a symbolic frame number"""
     j = cjob.CJob(hid, timeout_ms)
@@ -296,7 +358,6 @@ char *talloc_strdup(const void *c, const char *p) { return 0; }
 const struct l1sched_lchan_desc l1sched_lchan_desc[_L1SCHED_CHAN_MAX];
 void logp2(int ss, unsigned int lvl, const char *file, int line, int cont, const char *fmt, ...) { }
 void osmo_a5(int n, const uint8_t *key, uint32_t fn, ubit_t *dl, ubit_t *ul) { }
-int GSM_TDMA_FN_INC(uint32_t fn) { return fn + 1; }
 struct msgb *msgb_dequeue(struct llist_head *q) { return 0; }
 int msgb_hexdump_l2(const struct msgb *m) { return 0; }
 void msgb_free(struct msgb *m) { }
@@ -322,6 +383,29 @@ int main(int argc, char **argv) {
 '''
 
 
+SUBST_MAIN = r"""
+static int n_calls; static unsigned c_fn[256]; static int c_bid[256];
+static int vf_rx(struct l1sched_lchan_state *lchan, const struct l1sched_burst_ind *bi) { if (n_calls < 256) { c_fn[n_calls] = bi->fn; c_bid[n_calls] = bi->bid; } n_calls++; return 0; }
+int main(int argc, char **argv) {
+  int cfg = atoi(argv[1]), tn = atoi(argv[2]), chan = atoi(argv[3]); unsigned last = strtoul(argv[4], 0, 10), fn = strtoul(argv[5], 0, 10);
+  const struct l1sched_tdma_multiframe *l = l1sched_mframe_layout(cfg, tn);
+  if (!l) { printf("NOLAYOUT\n"); return 0; }
+  struct l1sched_state *s = calloc(1, sizeof(*s)); struct l1sched_ts *ts = calloc(1, sizeof(*ts)); struct l1sched_lchan_state *lc = calloc(1, sizeof(*lc));
+  ts->mf_layout = l; ts->index = tn; ts->sched = s; lc->ts = ts; lc->type = chan; lc->tdma.num_proc = 1; lc->tdma.last_proc = last;
+  int rc = subst_frame_loss(lc, vf_rx, fn);
+  printf("SUBST rc %%d calls", rc); for (int i = 0; i < n_calls && i < 256; i++) printf(" %%u/%%d", c_fn[i], c_bid[i]); printf("\n");
+  printf("TABLE %%d :", l->period); for (int i = 0; i < l->period; i++) printf(" %%d/%%d", l->frames[i].dl_chan, l->frames[i].dl_bid); printf("\n");
+  return 0;
+}
+"""
+
+
+def native_subst(cfg, tn, chan, last, fn):
+    drv = CFG_DRV[:CFG_DRV.index('int main(int argc')] + SUBST_MAIN
+    rc, out = cjob.run_native(drv % dict(mf=TXSRC, trx=SCHED_TRX), None, TX_INCS, args=[cfg, tn, chan, last, fn], extra_cflags=trxc.EXTRA)
+    return rc, out
+
+
 def native_cfg(cfg, tn, pre=()):
     rc, out = cjob.run_native(CFG_DRV % dict(mf=TXSRC, trx=SCHED_TRX), None, TX_INCS, args=[cfg, tn] + list(pre), extra_cflags=trxc.EXTRA)
     if rc != 0: return None
@@ -338,6 +422,21 @@ def replay(body):
     fw, tx = consts()
     if f == 'c_task':
         return (1, 'REPRODUCED by evaluating the natively compiled firmware scheduler and trxcon layout at fn=%s: %s' % (fn, ob)) if native_disagrees(body) else (0, 'native tables agree')
+    if f == 'c_subst':
+        i = body['inputs']; li = body['shape']['li']
+        ex = Exec(tx_module()); lay = Layouts(ex)
+        cfg = lay.field(li, 'chan_config', 4); sm = lay.field(li, 'slotmask', 1)
+        tn = next(t for t in range(8) if (sm >> t) & 1)
+        if lay.find(cfg, tn) != li: return 0, 'layout %d is shadowed by an earlier one for the same configuration/timeslot' % li
+        last = i.get('last_proc', 0); gap = i.get('gap', 1); chan = i.get('chan', 0); cur = (last + gap) % HYPER
+        rc, out = native_subst(cfg, tn, chan, last, cur)
+        if rc is None: return 2, out
+        if rc != 0: return 1, 'REPRODUCED on native build (ASan/UBSan): substitution of %d lost frames after fn=%d: %s' % (gap - 1, last, out[-700:])
+        m = re.search(r'SUBST rc (-?\d+) calls((?: \d+/\d+)*)', out); t = re.search(r'TABLE (\d+) :((?: \d+/\d+)*)', out)
+        period = int(t.group(1)); tab = [tuple(int(x) for x in e.split('/')) for e in t.group(2).split()]
+        got = [tuple(int(x) for x in e.split('/')) for e in m.group(2).split()]
+        want = [((last + k) % HYPER, tab[((last + k) % HYPER) % period][1]) for k in range(1, gap) if tab[((last + k) % HYPER) % period][0] == chan]
+        return (0, 'native agrees') if got == want and int(m.group(1)) == 0 else (1, 'REPRODUCED on native build: %d frames lost after fn=%d on channel %d: substituted %s, the layout gives %s' % (gap - 1, last, chan, got, want))
     if f == 'c_lookup_seq':
         i = body['inputs']
         a = native_cfg(i['config'], i['tn']); b = native_cfg(i['config'], i['tn'], pre=(i['first_config'], i['first_tn']))
